@@ -194,11 +194,11 @@ PROPS = {
                    NU + "iter_tuples", NU + "extend_right_alignments", NU + "extend_right_disorders"],
         oracles=[DS + "PositionalSporadicDissimilarity.compile_d_mat.<locals>.d_mat#invariance"],
         bounded=[dict(oracle=DS + "PositionalSporadicDissimilarity.compile_d_mat.<locals>.d_mat#invariance",
-                      what="the step from kernel-level invariance to the optimum of the MIP (an instance of the trusted lifting of C02) and n = 4, 5 "
+                      what="the step from kernel-level invariance to the optimum of the MIP (an instance of the trusted lifting of C02) "
                            "for slot permutations: metamorphic runs of get_best_alignment / compute_gamma on grid continua up to 2x8, 3x4, 5x2 "
                            "under annotator renaming+permutation, category renaming, translation, scaling, delta_empty scaling")],
         design_ref="DESIGN.md section 4 C09 (I1-I4)",
-        not_decided=["ud_perm for more than 3 annotators (lemmas for n = 2, 3; bounded for 4, 5)", "float32 rounding under translation / scaling (S2)",
+        not_decided=["slot-permutation invariance for more than 5 annotators (lemmas ud_perm_2 .. ud_perm_5 cover the statement's 2..5)", "float32 rounding under translation / scaling (S2)",
                      "same candidate disorders => same optimum: instance of the trusted lifting of C02"],
         trusted=S_COMMON,
     ),
